@@ -17,11 +17,12 @@ from .core import Unsupported
 
 class Aff:
     """affine expression  sum c_v * v + c0"""
-    __slots__ = ("c", "k")
+    __slots__ = ("c", "k", "_r")
 
     def __init__(self, c=None, k=0):
         self.c = {v: Fraction(x) for v, x in (c or {}).items() if x}
         self.k = Fraction(k)
+        self._r = None          # cached text (an Aff is never modified after it is built)
 
     def __add__(self, o):
         o = _A(o)
@@ -50,10 +51,12 @@ class Aff:
         return set(self.c)
 
     def __repr__(self):
-        parts = [f"{'' if x == 1 else ('-' if x == -1 else str(x) + '*')}{v}" for v, x in sorted(self.c.items())]
-        if self.k or not parts:
-            parts.append(str(self.k))
-        return " + ".join(parts).replace("+ -", "- ")
+        if self._r is None:
+            parts = [f"{'' if x == 1 else ('-' if x == -1 else str(x) + '*')}{v}" for v, x in sorted(self.c.items())]
+            if self.k or not parts:
+                parts.append(str(self.k))
+            self._r = " + ".join(parts).replace("+ -", "- ")
+        return self._r
 
 
 def _A(x):
